@@ -33,6 +33,9 @@ pub struct Sc {
     /// when set, the run exercises the camt.053 importer instead of the CSV one
     #[serde(default)]
     pub camt: Option<crate::checks::camt::Sc>,
+    /// when set, the run exercises the Viseca importer (C15 only)
+    #[serde(default)]
+    pub viseca: Option<crate::checks::viseca::Sc>,
 }
 
 const PAYEES: &[&str] = &[
@@ -480,6 +483,7 @@ fn gen_sc(rng: &mut Rng, flavour: u8) -> Sc {
         procs,
         flavour,
         camt: None,
+        viseca: None,
     }
 }
 
@@ -624,6 +628,9 @@ fn import_statement(sc: &Sc, k: usize, out: &mut RunOut, rule_prefix: &str) -> O
 }
 
 fn sample(sc: &Sc) -> serde_json::Value {
+    if let Some(v) = &sc.viseca {
+        return crate::checks::viseca::sample(v);
+    }
     if let Some(c) = &sc.camt {
         return crate::checks::camt::sample(c);
     }
@@ -637,6 +644,16 @@ fn sample(sc: &Sc) -> serde_json::Value {
 }
 
 fn shrinks(sc: &Sc) -> Vec<Sc> {
+    if let Some(v) = &sc.viseca {
+        return crate::checks::viseca::shrinks(v)
+            .into_iter()
+            .map(|x| {
+                let mut s = sc.clone();
+                s.viseca = Some(x);
+                s
+            })
+            .collect();
+    }
     if let Some(c) = &sc.camt {
         return crate::checks::camt::shrinks(c)
             .into_iter()
@@ -826,8 +843,10 @@ impl Check for C15 {
 
     fn generate(&self, rng: &mut Rng, _tier: Tier, _index: u64) -> Sc {
         let mut sc = gen_sc(rng, 15);
-        if rng.chance(1, 4) {
-            sc.camt = Some(crate::checks::camt::gen_sc(rng, true, false));
+        match rng.below(8) {
+            0 | 1 => sc.camt = Some(crate::checks::camt::gen_sc(rng, true, false)),
+            2 => sc.viseca = Some(crate::checks::viseca::gen_sc(rng)),
+            _ => {}
         }
         sc
     }
@@ -835,6 +854,10 @@ impl Check for C15 {
     fn execute(&self, sc: &Sc, out: &mut RunOut) {
         if let Some(c) = &sc.camt {
             crate::checks::camt::c15_leg(c, out);
+            return;
+        }
+        if let Some(v) = &sc.viseca {
+            crate::checks::viseca::c15_leg(v, out);
             return;
         }
         out.count("importer.csv");
@@ -930,11 +953,11 @@ impl Check for C15 {
     }
 
     fn rule(&self) -> &'static str {
-        "seeded CSV statements (column layout by index or label, template payee, delimiter , ; tab, 0-2 skipped head lines, four date formats, amount or credit/debit columns, optional balance, commodity, rate / quantity / symbol, category, note and fee columns, either row order, asset or liability, grouping commas, configured precisions) whose payee, note and category carry hostile text (';', leading '(' '*' '!', two spaces, tab, line break inside a quoted field, a fake posting line, a fake transaction header, leading/trailing spaces, quotes, commas, '=' '@', full-width text, empty) under rewrite rules with named captures; 2-3 simulated processes differing in hash seed and in the chunking of the YAML and CSV streams (and short writes / EINTR on stdout for the shipped command) must print identical bytes; the printed text is parsed with okane's own parser and compared field by field with the tree Txn::to_double_entry built (numbers by value; printed scale between the value's own and the configured precision); the entry count after appending to a ledger grows by exactly the record count; a quarter of the runs put the same hostile text into the party names of camt.053 statements instead; Viseca is not covered; non-trivial = some field carries hostile text; distinct = structural hash of the tape"
+        "seeded CSV statements (column layout by index or label, template payee, delimiter , ; tab, 0-2 skipped head lines, four date formats, amount or credit/debit columns, optional balance, commodity, rate / quantity / symbol, category, note and fee columns, either row order, asset or liability, grouping commas, configured precisions) whose payee, note and category carry hostile text (';', leading '(' '*' '!', two spaces, tab, line break inside a quoted field, a fake posting line, a fake transaction header, leading/trailing spaces, quotes, commas, '=' '@', full-width text, empty) under rewrite rules with named captures; 2-3 simulated processes differing in hash seed and in the chunking of the YAML and CSV streams (and short writes / EINTR on stdout for the shipped command) must print identical bytes; the printed text is parsed with okane's own parser and compared field by field with the tree Txn::to_double_entry built (numbers by value; printed scale between the value's own and the configured precision); the entry count after appending to a ledger grows by exactly the record count; a quarter of the runs put the same hostile text into the party names and references of camt.053 statements instead, an eighth import Viseca card statements (entry lines with and without foreign currency, category, exchange-rate and fee lines, LF or CRLF); non-trivial = some field carries hostile text; distinct = structural hash of the tape"
     }
 
     fn assumptions(&self) -> Vec<&'static str> {
-        vec!["okane's own parser defines what the printed text means (the property is stated that way)", "the Viseca importer is not exercised"]
+        vec!["okane's own parser defines what the printed text means (the property is stated that way)"]
     }
 }
 
